@@ -60,6 +60,7 @@ type Term struct {
 	Op   string // operator or atom text
 	Args []*Term
 	Sort Sort
+	Lemma bool     // quantified axiom installed from an `auto` lemma
 	Def  *Term     // named abbreviation: the term it stands for (for simplification only)
 	Vars []*Term   // quantifiers: bound variables
 	Pats [][]*Term // quantifiers: patterns
